@@ -23,7 +23,7 @@ import copy
 
 DATA = 7
 
-TYPES = ("particle", "coordinate", "t2", "x", "kind")
+TYPES = ("particle", "coordinate", "t.2", "x", "kind")    # one type with a dot: a type is any string
 NAMES = ("positron", "x", "n2", "", "x")
 
 # extra attributes ("arbitrary"): none / falsy scalars and a list / a nested mutable structure / one string
